@@ -63,7 +63,7 @@ case_strategy = st.fixed_dictionaries({
     "nan_rate": st.sampled_from([0.0, 0.0, 0.05, 0.3]),
     "minus1_rate": st.sampled_from([0.0, 0.1, 1.0]),
     "f32": st.booleans(),
-    "int_as_numpy": st.booleans(),
+    "int_as_numpy": st.sampled_from([False, False, True, "int32", "int16", "uint8"]),     # True = int64
     "first_nonfinite": st.booleans(),
     "uuid_mode": st.sampled_from(["full", "varying", "first_short"]),
     "overrides": st.lists(st.tuples(st.sampled_from(["comp", "isle", "simp"]), st.integers(0, 20), st.integers(0, 20),
@@ -94,7 +94,16 @@ def make_catalog(c, big=1):
                 setattr(s, a, v)
             for a in INT_ATTRS[kind]:
                 v = int(rng.integers(0, 128)) if a == "flags" else int(rng.integers(0, 100000))
-                setattr(s, a, np.int64(v) if c["int_as_numpy"] else v)
+                kind_ = c["int_as_numpy"]
+                if kind_ is True:
+                    v = np.int64(v)
+                elif kind_ == "int32":
+                    v = np.int32(v)          # what a FITS 'J' column hands back
+                elif kind_ == "int16":
+                    v = np.int16(v % 30000)
+                elif kind_ == "uint8":
+                    v = np.uint8(v % 250)
+                setattr(s, a, v)
             ra = float(rng.uniform(0, 360)) if not math.isnan(float(getattr(s, "ra"))) else float("nan")
             dec = float(rng.uniform(-90, 90)) if not math.isnan(float(getattr(s, "dec"))) else float("nan")
             if k == 0 and c["first_nonfinite"]:
